@@ -4,7 +4,7 @@ import random
 
 from harness import progs, progs_alias, progs_calls, progs_cheats, progs_symstore
 from harness.common import Check
-from harness.e1corpus import Item, describe, run_items
+from harness.e1corpus import Item, describe, run_items, release
 
 BUDGET = {
     "quick": {"arith": 6, "control": 20, "memory": 6, "state": 12, "calls": 12, "alias": 12, "symstorage": 8, "assume": 8},
@@ -40,6 +40,8 @@ def run(chk: Check, tier: str):
     items += probes.c01_probes()
     ncov = 0
     for i in range(0, len(items), 100):
+        if i:
+            release(items[i - 100 : i])
         outs = run_items(items[i : i + 100], chk)
         for o in outs:
             chk.count("evaluations")
